@@ -298,13 +298,30 @@ def poison_defs(u, add):
     bad('PZ', [Field(1, None, go_text='[]*PY', model_text='(slice (ptr (struct %d PY)))' % sid['PY'], tag='frugal:"1,default,list<PY>"')])
 
 
+def zero_size(u, name, seen=None):
+    """the Go struct occupies no memory: every field is a by-value zero-size struct (then all
+    pointers to it are equal, and it cannot serve as a distinct map key)"""
+    seen = seen or set()
+    if name in seen:
+        return False
+    s = u.by_name[name]
+    if s.holder:
+        return False
+    for f in s.fields:
+        if f.ty is None:
+            return False
+        if f.ty[0] != 'struct' or not zero_size(u, f.ty[1], seen | {name}):
+            return False
+    return True
+
+
 def rand_type(rng, u, names, depth, pos):
     """pos: 'field' | 'elem' | 'key'"""
     if pos == 'key':
         r = rng.below(10)
         if r < 8:
             return rng.pick(KEY_KINDS)
-        kn = [n for n in names if u.by_name[n].fields or u.by_name[n].holder]   # pointers to zero-size structs are all equal: not usable as distinct keys
+        kn = [n for n in names if not zero_size(u, n)]   # pointers to zero-size structs are all equal: not usable as distinct keys
         return ('ptr', ('struct', rng.pick(kn))) if kn else ('i32',)
     r = rng.below(100)
     if r < 35 or depth <= 0:
